@@ -148,8 +148,38 @@ class Type(object):
     def empty(self):
         return ext._box1(_call("akb_type_call", self._h, b"empty"))
 
-    def __getstate__(self):
-        raise TypeError("pickling of Type objects goes through src/python/types.cpp, which is not reachable here")
+    def __reduce__(self):
+        # stands in for the py::pickle definitions of src/python/types.cpp (constructor arguments)
+        return (_type_from_state, (self._state(),))
+
+    def _state(self):
+        d = {"kind": type(self).__name__, "parameters": self._parameters, "typestr": self._typestr}
+        for k in ("_type", "_types"):
+            if hasattr(self, k):
+                v = getattr(self, k)
+                d[k] = v._state() if isinstance(v, Type) else [x._state() for x in v]
+        for k in ("_length", "_size", "_dtype", "_keys"):
+            if hasattr(self, k):
+                d[k] = getattr(self, k)
+        return d
+
+
+def _type_from_state(d):
+    kind = d["kind"]
+    p, ts = d["parameters"] or None, d["typestr"]
+    if kind == "ArrayType":
+        return ArrayType(_type_from_state(d["_type"]), d["_length"], p, ts)
+    if kind in ("ListType", "OptionType"):
+        return _TYPE_CLASSES[kind](_type_from_state(d["_type"]), p, ts)
+    if kind == "RegularType":
+        return RegularType(_type_from_state(d["_type"]), d["_size"], p, ts)
+    if kind == "UnknownType":
+        return UnknownType(p, ts)
+    if kind == "PrimitiveType":
+        return PrimitiveType(d["_dtype"], p, ts)
+    if kind == "UnionType":
+        return UnionType([_type_from_state(x) for x in d["_types"]], p, ts)
+    return RecordType([_type_from_state(x) for x in d["_types"]], d["_keys"], p, ts)
 
 
 def _check_type(t):
@@ -419,8 +449,9 @@ class Form(object):
     def _child(self, name):
         return Form.fromjson(json.dumps(self._j[name]))
 
-    def __getstate__(self):
-        raise TypeError("pickling of Form objects goes through src/python/forms.cpp, which is not reachable here")
+    def __reduce__(self):
+        # stands in for the py::pickle definitions of src/python/forms.cpp
+        return (Form.fromjson, (self.tojson(False, True),))
 
 
 def _idx(s):
@@ -579,10 +610,15 @@ class RecordForm(Form):
 
     @property
     def contents(self):
+        # as the binding: always a dict; tuples get the keys "0", "1", ...
         c = self._j["contents"]
         if isinstance(c, dict):
-            return {k: Form.fromjson(json.dumps(v)) for k, v in c.items()}
-        return [Form.fromjson(json.dumps(v)) for v in c]
+            items = list(c.items())
+        else:
+            items = [(str(i), v) for i, v in enumerate(c)]
+        # the binding returns a std::map<std::string, FormPtr>: iteration order is by key bytes
+        items.sort(key=lambda kv: kv[0].encode("utf-8", "surrogateescape"))
+        return {k: Form.fromjson(json.dumps(v)) for k, v in items}
 
     istuple = property(lambda self: isinstance(self._j["contents"], list))
     numfields = property(lambda self: len(self._j["contents"]))
